@@ -22,10 +22,10 @@ _c15prod = _load("c15prod")
 
 
 def prod_model_agreement(ctx):
-    """The production NFAs through the MODEL of compile (Automata/Compile.v): the DFA the model
-    computes must equal the production DFA state for state (same numbering).  utf8 and command
-    always; event (about 4 minutes of vm_compute on unary state ids) in the thorough tier."""
-    names = ["utf8", "command"] + (["event"] if ctx["tier"] == "thorough" else [])
+    """The production NFAs through the MODEL of compile (Automata/Compile.v, evaluated through its
+    proved-equal efficient rendering Automata/CompileFast.v): the DFA the model computes must equal
+    the production DFA state for state (same numbering), for utf8, command and event."""
+    names = ["utf8", "command", "event"]
     d = os.path.join(ctx["build"], "c15prod")
     os.makedirs(d, exist_ok=True)
     src = "From Coq Require Import List NArith.\nFrom SNT Require Import Corr.C15Prod Gen.ProdNFA Gen.ProdDFA.\n"
@@ -57,6 +57,7 @@ PROP = {'gen': [],
  'extra': [prod_model_agreement],
  'coq_props': ['theories/Props/C15.vo'],
  'coq_corr': ['theories/Corr/C15Corr.vo', 'theories/Corr/C15Prod.vo'],
+ 'coq_props_more': [{'target': 'theories/Props/C15Prod.vo', 'file': 'theories/Props/C15Prod.v', 'module': 'Props.C15Prod'}],
  'props_file': 'theories/Props/C15.v',
  'props_module': 'Props.C15',
  'corr_check': 'SNT.Corr.C15Corr.c15_check (model Automata/{NFA,Build,Compile}.v vs surf_n_term::automata::{NFA, DFA}: NFA graph from '
